@@ -2378,6 +2378,21 @@ def install(eng):
     M[('set', 'update')] = set_update
     M[('set', 'union')] = set_union
     M[('set', 'copy')] = list_copy
+
+    def set_issubset(e, a, b):
+        # a.issubset(b): every element of a is in b (b: a set, or any iterable of a concrete / symbolic collection)
+        if isinstance(a, Box) and a.ty is None and not a.cd:
+            return True
+        ta = type_of(a)
+        if not isinstance(ta, TSet):
+            raise EngineError('issubset of an untyped set')
+        if isinstance(b, Box) and b.ty is None and not b.cd:
+            return wrap(TBool, to_z3(a) == ta.empty())
+        if type_of(b) != ta:
+            raise EngineError('issubset of sets of different element types')
+        x = z3.FreshConst(ta.t.sort(), 'ss')
+        return wrap(TBool, z3.ForAll([x], z3.Implies(z3.Select(to_z3(a), x), z3.Select(to_z3(b), x))))
+    M[('set', 'issubset')] = set_issubset
     M[('cstr', 'find')] = lambda e, s, c: cstr_find(e, s, c, False)
     M[('cstr', 'rfind')] = lambda e, s, c: cstr_find(e, s, c, True)
     M[('cstr', 'split')] = lambda e, s, sep, maxsplit=-1: cstr_split1(e, s, sep, maxsplit, False)
